@@ -793,3 +793,117 @@ Proof.
 Qed.
 
 End Main.
+
+(* ------------------------------------------------------------------ batches respect dependencies *)
+Definition before (bs : list (list nat)) (i j : nat) : Prop :=
+  exists pre b mid c post, bs = pre ++ b :: mid ++ c :: post /\ In i b /\ In j c.
+
+Lemma seq_split a n i : (a <= i < a + n)%nat ->
+  seq a n = seq a (i - a) ++ i :: seq (S i) (a + n - S i).
+Proof.
+  intros H. replace n with ((i - a) + S (a + n - S i))%nat at 1 by lia.
+  rewrite seq_app. f_equal. cbn [seq]. replace (a + (i - a))%nat with i by lia. reflexivity.
+Qed.
+
+Lemma filter_seq_split (P : nat -> bool) a n i : (a <= i < a + n)%nat -> P i = true ->
+  filter P (seq a n) = filter P (seq a (i - a)) ++ i :: filter P (seq (S i) (a + n - S i)).
+Proof.
+  intros H Hp. rewrite (seq_split a n i H) at 1. rewrite filter_app. cbn [filter]. rewrite Hp. reflexivity.
+Qed.
+
+Lemma filter_seq_split2 (P : nat -> bool) n i j : (i < j < n)%nat -> P i = true -> P j = true ->
+  exists m1 m2 m3, filter P (seq 0 n) = m1 ++ i :: m2 ++ j :: m3.
+Proof.
+  intros H Hi Hj.
+  rewrite (filter_seq_split P 0 n i) by (auto; lia).
+  rewrite (filter_seq_split P (S i) (0 + n - S i) j) by (auto; lia).
+  do 3 eexists. reflexivity.
+Qed.
+
+Lemma nth_error_firstn_In {A} (l : list A) i j x : (i < j)%nat -> nth_error l i = Some x -> In x (firstn j l).
+Proof.
+  revert i j. induction l as [|y l IH]; intros i j Hlt H; [destruct i; discriminate|].
+  destruct j; [lia|]. destruct i; cbn in *.
+  - inversion H; auto.
+  - right. eapply IH; eauto. lia.
+Qed.
+
+Lemma nth_error_skipn_In {A} (l : list A) i j x : (i < j)%nat -> nth_error l j = Some x -> In x (skipn (S i) l).
+Proof.
+  revert i j. induction l as [|y l IH]; intros i j Hlt H; [destruct j; discriminate|].
+  destruct j; [lia|]. cbn in H. destruct i; cbn [skipn].
+  - eapply nth_error_In; eauto.
+  - apply (IH i j); [lia | exact H].
+Qed.
+
+Lemma one_batch_in b x : In x b -> one_batch b = [b].
+Proof. destruct b; [intros []|reflexivity]. Qed.
+
+Lemma batches_respect rules i j ri rj :
+  (i < j)%nat -> nth_error rules i = Some ri -> nth_error rules j = Some rj -> dep_on rj ri = true ->
+  before (split_batches rules) i j.
+Proof.
+  intros Hlt Hi Hj Hd.
+  assert (Hjn : (j < length rules)%nat) by (apply nth_error_Some; congruence).
+  assert (Dj : has_dependency rules j = true).
+  { unfold has_dependency. rewrite Hj. apply existsb_exists. exists ri. split; auto.
+    eapply nth_error_firstn_In; eauto. }
+  assert (Ti : has_dependent rules i = true).
+  { unfold has_dependent. rewrite Hi. apply existsb_exists. exists rj. split; auto.
+    eapply nth_error_skipn_In; eauto. }
+  assert (Ii : In i (seq 0 (length rules))) by (apply in_seq; lia).
+  assert (Ij : In j (seq 0 (length rules))) by (apply in_seq; lia).
+  unfold split_batches.
+  set (idx := seq 0 (length rules)) in *.
+  set (P0 := fun i => negb (has_dependency rules i)).
+  set (P1 := fun i => has_dependency rules i && has_dependent rules i).
+  set (P2 := fun i => has_dependency rules i && negb (has_dependent rules i)).
+  destruct (has_dependency rules i) eqn:Di; destruct (has_dependent rules j) eqn:Tj.
+  - (* both sequential *)
+    destruct (filter_seq_split2 P1 (length rules) i j) as (m1 & m2 & m3 & E);
+      [lia | unfold P1; rewrite Di, Ti; reflexivity | unfold P1; rewrite Dj, Tj; reflexivity |].
+    unfold idx. rewrite E.
+    exists (one_batch (filter P0 (seq 0 (length rules))) ++ map (fun i => [i]) m1), [i],
+           (map (fun i => [i]) m2), [j],
+           (map (fun i => [i]) m3 ++ one_batch (filter P2 (seq 0 (length rules)))).
+    split; [|split; left; reflexivity].
+    rewrite !map_app. cbn [map]. rewrite !map_app. cbn [map]. rewrite <- !app_assoc. cbn [app].
+    rewrite <- !app_assoc. reflexivity.
+  - (* i sequential, j in the last batch *)
+    assert (I1 : In i (filter P1 idx)) by (apply filter_In; split; auto; unfold P1; rewrite Di, Ti; reflexivity).
+    assert (I2 : In j (filter P2 idx)) by (apply filter_In; split; auto; unfold P2; rewrite Dj, Tj; reflexivity).
+    destruct (in_split _ _ I1) as (m1 & m2 & E). rewrite E. rewrite (one_batch_in _ _ I2).
+    exists (one_batch (filter P0 idx) ++ map (fun i => [i]) m1), [i], (map (fun i => [i]) m2), (filter P2 idx), [].
+    split; [|split; [left; reflexivity | exact I2]].
+    rewrite map_app. cbn [map]. rewrite <- !app_assoc. cbn [app]. reflexivity.
+  - (* i in the first batch, j sequential *)
+    assert (I0 : In i (filter P0 idx)) by (apply filter_In; split; auto; unfold P0; rewrite Di; reflexivity).
+    assert (I1 : In j (filter P1 idx)) by (apply filter_In; split; auto; unfold P1; rewrite Dj, Tj; reflexivity).
+    destruct (in_split _ _ I1) as (m1 & m2 & E). rewrite E. rewrite (one_batch_in _ _ I0).
+    exists [], (filter P0 idx), (map (fun i => [i]) m1), [j], (map (fun i => [i]) m2 ++ one_batch (filter P2 idx)).
+    split; [|split; [exact I0 | left; reflexivity]].
+    rewrite map_app. cbn [map app]. rewrite <- !app_assoc. cbn [app]. reflexivity.
+  - (* first and last batch *)
+    assert (I0 : In i (filter P0 idx)) by (apply filter_In; split; auto; unfold P0; rewrite Di; reflexivity).
+    assert (I2 : In j (filter P2 idx)) by (apply filter_In; split; auto; unfold P2; rewrite Dj, Tj; reflexivity).
+    rewrite (one_batch_in _ _ I0), (one_batch_in _ _ I2).
+    exists [], (filter P0 idx), (map (fun i => [i]) (filter P1 idx)), (filter P2 idx), [].
+    split; [reflexivity | split; assumption].
+Qed.
+
+(* every rule is in exactly the batches' concatenation once: the batches are a partition *)
+Lemma batches_cover rules i : (i < length rules)%nat -> In i (concat (split_batches rules)).
+Proof.
+  intros H. assert (Ii : In i (seq 0 (length rules))) by (apply in_seq; lia).
+  unfold split_batches. rewrite !concat_app. apply in_or_app.
+  destruct (has_dependency rules i) eqn:D.
+  - right. apply in_or_app. destruct (has_dependent rules i) eqn:T.
+    + left. apply in_concat. exists [i]. split; [|left; reflexivity].
+      apply in_map with (f := fun i => [i]). apply filter_In. split; auto. rewrite D, T. reflexivity.
+    + right. assert (I2 : In i (filter (fun i => has_dependency rules i && negb (has_dependent rules i)) (seq 0 (length rules))))
+        by (apply filter_In; split; auto; rewrite D, T; reflexivity).
+      rewrite (one_batch_in _ _ I2). cbn. rewrite app_nil_r. exact I2.
+  - left. assert (I0 : In i (filter (fun i => negb (has_dependency rules i)) (seq 0 (length rules))))
+      by (apply filter_In; split; auto; rewrite D; reflexivity).
+    rewrite (one_batch_in _ _ I0). cbn. rewrite app_nil_r. exact I0.
+Qed.
